@@ -5,6 +5,7 @@ import numpy as np
 import pandas as pd
 
 from .. import drv_change as D
+from ..core import pmap
 
 ALPHA = (0.0, 1.0, 4.5, -3.0)
 WRAPS = {"scalar": lambda x: x, "list": lambda x: [x], "array": lambda x: np.array([x]),
@@ -41,7 +42,7 @@ def run(ctx):
     ncfg = 4 if q else 10
     for kind, mk, runner in (("PageHinkley", ph_params, D.ph_run), ("Cusum", cu_params, D.cu_run)):
         ps = [mk(rng, small=True) for _ in range(ncfg)]
-        traces = [runner(p, [("update", x) for x in s]) for p in ps for s in itertools.product(ALPHA, repeat=n)]
+        traces = pmap(runner, [(p, [("update", x) for x in s]) for p in ps for s in itertools.product(ALPHA, repeat=n)])
         ctx.validate(kind, traces, "%s all %d^%d sequences x %d configurations" % (kind, len(ALPHA), n, ncfg),
                      sabotage=D.sabotage, replay=replayer(traces))
     # long streams with many level shifts, every container type, resets and refused calls mixed in
